@@ -34,7 +34,7 @@ TARGETS = {
     'rename/binding.py': ['C03', 'C04', 'C17'], 'rename/renamer.py': ['C03', 'C04', 'C08'], 'rename/util.py': ['C04', 'C10', 'C03', 'C06'],
     'rename/rename_literals.py': ['C06', 'C17'],
     'token_printer.py': ['C02'], 'expression_printer.py': ['C02'], 'module_printer.py': ['C02'], 'f_string.py': ['C02', 'C12'],
-    'ministring.py': ['C12', 'C02'], 'util.py': ['C07', 'C05'],
+    'ministring.py': ['C12', 'C02'], 'util.py': ['C07', 'C05'], 'ast_compare.py': ['C02'],
 }
 
 CMP = {ast.Eq: '!=', ast.NotEq: '==', ast.Is: 'is not', ast.IsNot: 'is', ast.In: 'not in', ast.NotIn: 'in', ast.Lt: '<=', ast.LtE: '<', ast.Gt: '>=', ast.GtE: '>'}
